@@ -109,6 +109,34 @@ Example radius_ex_theorem :   (* the theorem instantiated on the second-copy cas
   let l := [mkB KShort [px 1; px 2; sl; px 3] false; mkB (KSide 0) [px 0] false] in
   forall e c, corner_value e (radius_process l) c = corner_value e l c.
 Proof. intros l e c. apply radius_collapse_keeps_corners_all. repeat constructor. Qed.
+From V Require Import C12.Nesting C12.NestingProofs.
+(* nesting lowering on the model: types a=1 b=2 div=3, class c1=1 *)
+Definition ty1 (t : Z) := XCons (Cp 0 false (Some t) SNil) XNil.
+Example nest_ex_wrap :   (* a b { div & {} } => div :is(a b) *)
+  lower_is (LCons (XCons (Cp 0 false (Some 1) SNil) (XCons (Cp 0 false (Some 2) SNil) XNil)) LNil)
+           (XCons (Cp 0 false (Some 3) SNil) (XCons (Cp 0 true None SNil) XNil))
+  = XCons (Cp 0 false (Some 3) SNil)
+      (XCons (Cp 0 false None (SPc false (LCons (XCons (Cp 0 false (Some 1) SNil) (XCons (Cp 0 false (Some 2) SNil) XNil)) LNil) SNil)) XNil).
+Proof. vm_compute. reflexivity. Qed.
+Example nest_ex_relative :   (* a, b { > .c1 {} } => :is(a, b) > .c1 *)
+  lower_is (LCons (ty1 1) (LCons (ty1 2) LNil)) (XCons (Cp 1 false None (SClass 1 SNil)) XNil)
+  = XCons (Cp 0 false None (SPc false (LCons (ty1 1) (LCons (ty1 2) LNil)) SNil)) (XCons (Cp 1 false None (SClass 1 SNil)) XNil).
+Proof. vm_compute. reflexivity. Qed.
+Example nest_ex_two_types :   (* a { div& {} } => a:is(div) *)
+  lower_is (LCons (ty1 1) LNil) (XCons (Cp 0 true (Some 3) SNil) XNil)
+  = XCons (Cp 0 false (Some 1) (SPc false (LCons (ty1 3) LNil) SNil)) XNil.
+Proof. vm_compute. reflexivity. Qed.
+(* a three-element tree  div > a.c1 , div > b : which elements `a, b { > .c1 }`-style selectors match *)
+Definition nest_doc := [mkN 3 [] None None; mkN 1 [1] (Some 0%nat) None; mkN 2 [] (Some 0%nat) (Some 1%nat)].
+Example nest_ex_matches :
+  let D := tree_dom nest_doc in
+  let parents := LCons (ty1 3) LNil in                      (* div *)
+  let child := XCons (Cp 1 false None (SClass 1 SNil)) XNil in    (* > .c1 *)
+  map (matches D [] (lower_is parents child)) [0%nat; 1%nat; 2%nat] = [false; true; false]
+  /\ map (matches D (parent_set D parents) (inject_amp child)) [0%nat; 1%nat; 2%nat] = [false; true; false]
+  /\ parent_set D parents = [true; false; false]
+  /\ map (matches D [] (XCons (Cp 0 false (Some 1) SNil) (XCons (Cp 2 false (Some 2) SNil) XNil))) [0%nat; 1%nat; 2%nat] = [false; false; true].
+Proof. vm_compute. repeat split; reflexivity. Qed.
 Example dedupe_ex :
   keep_last decl_eqb [mkDecl 1 1 true 0; mkDecl 1 2 false 0; mkDecl 1 1 false 0; mkDecl 1 1 true 0; mkDecl 1 2 false 0]
   = [mkDecl 1 1 false 0; mkDecl 1 1 true 0; mkDecl 1 2 false 0].
